@@ -1,0 +1,9 @@
+//go:build verif
+
+package primefield
+
+// FieldPtr returns the field object a belongs to.
+func (a *Element) FieldPtr() *Field { return a.field }
+
+// HasTables reports which arithmetic tables are present.
+func (f *Field) HasTables() (add, mult bool) { return f.addTable != nil, f.multTable != nil }
